@@ -5,8 +5,9 @@ import Verif.Model.SCEP
   `facts`                                   → the message-type sets of `Verif.SCEP.asCoded`, rendered exactly
                                               like the harness's source extractor renders what it finds
   `pki http= p7= tid= mt=x<hex>|! sn=ok|empty|none st=x<hex>|! rn= fi= inner= dec=
-       env=csr|badsig|nocsr|cperr cp=x<hex> degen=<n>|! signok= encok=
-       secret=x<hex> hooks=<kind>:<ct>:<a|d|e>,…|-`
+       env=csr|badsig|nocsr|cperr cp=x<hex> degen=<n>|! signok= certs=<r|n per certificate>|- signer=<pos>|!
+       secret=x<hex> hooks=<kind>:<ct>:<a|d|e>,…|- inits=<times Init ran on the provisioner object, ≥ 1>`
+  `init inits=<n> secret=x<hex> hooks=…`    → `init webhooks=<Options.Webhooks after the Inits>`
   Output: ok … | fail:<info> … | http5xx … | crash … | parse-error
 -/
 open Verif Verif.SCEP
@@ -57,23 +58,40 @@ def factsS (F : Facts) : String :=
   s!"dec_certrep={listS F.decCertRep} dec_csr={listS F.decCsr} dec_err={listS F.decErr} " ++
   s!"dec_default={if F.decDefaultErr then "err" else "fall"} checked={if F.checkAll then "*" else listS F.checked}"
 
-def replyS (r : Reply) : String :=
+def natsS (l : List Nat) : String :=
+  if l.isEmpty then "-" else ",".intercalate (l.map toString)
+
+def replyS (q : Req) (r : Reply) : String :=
   let signer := if r.signedByCA then "ca" else "other"
   match r.status with
   | .success =>
+    -- enc: the requester (the certificate whose key signed the request) can open the envelope
+    let enc := r.encrypted && (match q.signer with | some i => r.recipients.contains i | none => false)
     -- pk / nonce: the harness's own checks on a success reply (issued key = CSR key, nonce echoed)
-    s!"ok inner={r.inner} outer={r.outer} signer={signer} enc={if r.encrypted then 1 else 0} pk=1 nonce=1"
+    s!"ok inner={r.inner} outer={r.outer} signer={signer} enc={if enc then 1 else 0} pk=1 nonce=1 " ++
+    s!"rcpt={natsS r.recipients} nrcpt={r.recipients.length}"
   | .failure =>
     let fi := match r.failInfo with | some n => toString n | none => ""
     s!"fail:{fi} inner={r.inner} outer={r.outer} signer={signer} nonce=1"
 
-def resultS : M Result → String
-  | .crash => "crash hooks=0 db=0"
+def resultS (q : Req) : M Result → String
+  | .crash => "crash hooks=0 notif=0 db=0"
   | .val r =>
     let head := match r.out with
       | .http500 => "http5xx"
-      | .reply rp => replyS rp
-    s!"{head} hooks={r.hookCalls} db={r.stored}"
+      | .reply rp => replyS q rp
+    s!"{head} hooks={r.hookCalls} notif={r.notifyCalls} db={r.stored}"
+
+def certs? (t : String) : Option (List Bool) :=
+  if t = "-" then some [] else t.toList.mapM fun c => if c = 'r' then some true else if c = 'n' then some false else none
+
+def hookS (h : Hook) : String :=
+  let k := match h.kind with | .scep => "scep" | .notify => "notify"
+  let ct := match h.ct with | .x509 => "x509" | .ssh => "ssh" | .all => "all" | .unset => "none"
+  s!"{k}:{ct}"
+
+def hooksS (l : List Hook) : String :=
+  if l.isEmpty then "-" else ",".intercalate (l.map hookS)
 
 /-- Dispatch tables to run with: the tree as it stands unless the line carries `tables=before`
     (never sent by the harness; used by hand to run the historic tables, e.g. against a worktree
@@ -109,9 +127,17 @@ def eval (line : String) : Option String := do
       cp := ← str? (← lookup kv "cp")
       degen := ← degen? (← lookup kv "degen")
       signOk := ← bool? (← lookup kv "signok")
-      encOk := ← bool? (← lookup kv "encok") }
+      certs := ← certs? (← lookup kv "certs")
+      signer := ← degen? (← lookup kv "signer") }
     let c : Config := { secret := ← str? (← lookup kv "secret"), hooks := ← hooks? (← lookup kv "hooks") }
-    pure (resultS (pkiOperation (← tables kv) c q))
+    let inits ← (← lookup kv "inits").toNat?
+    -- the handlers run on the controllers of the provisioner object, initialised `inits` times
+    pure (resultS q (pkiOperationP (← tables kv) (initN inits (Prov.new c)) q))
+  | "init" :: rest =>
+    let kv := kvOf rest
+    let c : Config := { secret := ← str? (← lookup kv "secret"), hooks := ← hooks? (← lookup kv "hooks") }
+    let p := initN (← (← lookup kv "inits").toNat?) (Prov.new c)
+    pure s!"init webhooks={hooksS p.cfg.hooks}"
   | _ => none
 
 end C15
